@@ -24,6 +24,8 @@ namespace RotoV.ValueSpec
 inductive Val where
   | int (i : Int)
   | str (s : String)
+  /-- an opaque leaf (float, char, Asn, IpAddr, Prefix): identified by the text the host prints -/
+  | opq (hex : String)
   | unit
   | recd (fs : Array Val)
   | enm (tag : Nat) (fs : Array Val)
@@ -33,6 +35,7 @@ inductive Val where
 inductive Expr where
   | lit (i : Int)
   | str (s : String)
+  | opq (hex : String)
   | unit
   | var (i : Nat)
   | fld (k : Nat) (e : Expr)
@@ -87,6 +90,7 @@ def setVar (i : Nat) (v : Val) : M Unit := modify fun s =>
 partial def valEq (heap : Array (Array Val)) : Val → Val → Bool
   | .int a, .int b => a == b
   | .str a, .str b => a == b
+  | .opq a, .opq b => a == b
   | .unit, .unit => true
   | .recd a, .recd b => a.size == b.size && (List.range a.size).all fun i => valEq heap a[i]! b[i]!
   | .enm t a, .enm u b =>
@@ -106,6 +110,7 @@ def hexStr (s : String) : String := String.join (s.toUTF8.toList.map hexByte)
 partial def flatten (heap : Array (Array Val)) : Val → Array String
   | .int i => #[s!"i:{i}"]
   | .str s => #[s!"s:{hexStr s}"]
+  | .opq h => #[s!"o:{h}"]
   | .unit => #["u"]
   | .recd fs => fs.foldl (fun acc v => acc ++ flatten heap v) #[]
   | .enm t fs => fs.foldl (fun acc v => acc ++ flatten heap v) #[s!"t:{t}"]
@@ -129,6 +134,7 @@ partial def update (v : Val) (path : List Nat) (nv : Val) : Val :=
 partial def eval : Expr → M Val
   | .lit i => pure (.int i)
   | .str s => pure (.str s)
+  | .opq h => pure (.opq h)
   | .unit => pure .unit
   | .var i => do
     let s ← get
@@ -305,6 +311,7 @@ partial def pExpr : P Expr := do
     | some s => pure (.str s)
     | none => failure
   | "U" => pure .unit
+  | "O" => pure (.opq (← tok))
   | "V" => pure (.var (← nat))
   | "F" => do
     let k ← nat
